@@ -26,6 +26,49 @@ def fld(ptr, fn, m):
     return f if s in (STRUCT, "rf_pack") else None
 
 
+class Rep:
+    """How the cursor object represents its position: 'ptr' = {basep, endp, p} (three pointers, position = p) or
+    'idx' = {basep, <capacity>, <position>} (a base pointer and two byte counts).  Discovered from rf_pack_init: the field
+    given the buffer is the base, the field given base + sz (ptr) / sz (idx) the end / capacity, the field given the buffer
+    again (ptr) / 0 (idx) the position."""
+
+    def __init__(self, kind, base, cap, pos):
+        self.kind, self.base, self.cap, self.pos = kind, base, cap, pos
+
+
+_rep_cache = {}
+
+
+def discover_rep(m):
+    key = id(m)
+    if key in _rep_cache:
+        return _rep_cache[key]
+    if not m.has_fn("rf_pack_init"):
+        raise AnalysisError("anchor vanished: rf_pack_init")
+    fn = m.functions["rf_pack_init"]
+    ps = paths.enumerate_paths(fn, m)
+    if len(ps) != 1:
+        raise AnalysisError("rf_pack_init is not straight-line")
+    vals = {}
+    for e in ps[0].events:
+        if e.kind == "store" and fld(e.ptr, fn, m):
+            vals[fld(e.ptr, fn, m)] = strip_casts(e.val)
+    buf = [k for k, v in vals.items() if v == ("arg", 1)]
+    zero = [k for k, v in vals.items() if v[0] == "c" and v[2] == 0]
+    size = [k for k, v in vals.items() if v == ("arg", 2)]
+    end = [k for k, v in vals.items() if v[0] == "p" and v[1] == ("arg", 1)]
+    if len(buf) == 2 and len(end) == 1 and not zero and not size:
+        pos = "p" if "p" in buf else sorted(buf)[-1]
+        rep = Rep("ptr", [b for b in buf if b != pos][0], end[0], pos)
+    elif len(buf) == 1 and len(zero) == 1 and len(size) == 1:
+        rep = Rep("idx", buf[0], size[0], zero[0])
+    else:
+        raise AnalysisError("rf_pack_t's representation is not recognised (rf_pack_init stores: %s)" %
+                            ", ".join("%s := %s" % (k, fmt(v)[:30]) for k, v in sorted(vals.items())))
+    _rep_cache[key] = rep
+    return rep
+
+
 def is_pack_fn(fn):
     return bool(fn.args) and fn.args[0].ty in ("%struct.rf_pack*",)
 
@@ -174,7 +217,93 @@ def guard_semantics(p, P0, A, k_adv, SZ, fn, m):
     return "nofit", "path conditions imply size > endp - old cursor for every room and size (BDD, %d nodes)" % B.size(), gloc
 
 
+def guard_semantics_idx(p, U0, A, k_adv, SZ, fn, m, rep):
+    """As guard_semantics, for the index representation: the path conditions are Boolean functions of the old position,
+    the capacity and the size (unsigned, as wide as the fields); 'fits' is position + size <= capacity as integers.
+    Quantified over capacity, position and size below 2^31 each (the property's scope: the position keeps counting past
+    the capacity)."""
+    from ..domains.bdd import BDD, BV
+    from ..domains.bvexec import expr_bv, Top
+    B = BDD()
+    bv = BV(B)
+    W = 64
+    POS = [B.var(3 * i) for i in range(32)]
+    CAP = [B.var(3 * i + 1) for i in range(32)]
+    SZV = [B.var(3 * i + 2) for i in range(32)]
+    if SZ[0] == "const":
+        szv = bv.const(SZ[1], 32)
+        sz_atom = None
+    else:
+        szv = SZV
+        sz_atom = strip_casts(SZ[1][0][0])
+
+    def width_of(x):
+        return x[2] * 8 if x[0] == "ld" else 32
+
+    def atom(x):
+        if x[0] == "ld":
+            f = fld(x[1], fn, m)
+            if f == rep.pos:
+                return bv.zext(POS, width_of(x)) if x == U0 or x[1] == U0[1] else None
+            if f == rep.cap:
+                return bv.zext(CAP, width_of(x))
+        if x == A.val:
+            w = paths.expr_bits(x) or 32
+            return bv.add(bv.zext(POS, w), bv.zext(szv, w))
+        if sz_atom is not None and x == sz_atom:
+            return szv
+        if x[0] == "call" and x[1] in ("rf_pack_remaining", "rf_pack_consumed") and len(x) > 3:
+            ks = [k for k, e in enumerate(p.events) if e.kind == "call" and e.res == x]
+            if ks:
+                cur = bv.zext(POS, 64) if ks[0] < k_adv else bv.add(bv.zext(POS, 64), bv.zext(szv, 64))
+                v = bv.sub(bv.zext(CAP, 64), cur) if x[1] == "rf_pack_remaining" else cur
+                return bv.trunc(v, 32)
+        return None
+
+    def conv(x):
+        try:
+            return expr_bv(x, bv, atom)
+        except (Top, KeyError, IndexError, TypeError):
+            return None
+    lim = bv.const(1 << 31, 32)
+    dom = B.AND(B.AND(bv.ult(POS, lim), bv.ult(CAP, lim)), bv.ult(szv, lim))
+    need = bv.add(bv.zext(POS, 64), bv.zext(szv, 64))
+    fits = B.NOT(bv.ult(bv.zext(CAP, 64), need))
+    pc = dom
+    used = []
+    for c, taken, inst in p.conds:
+        if not paths.contains(c, lambda x: (x[0] == "ld" and fld(x[1], fn, m) in (rep.cap, rep.pos)) or x == A.val or
+                              (x[0] == "call" and x[1] in ("rf_pack_remaining", "rf_pack_consumed"))):
+            continue
+        if inst is not None and getattr(inst, "op", None) == "switch":
+            return None, "switch on a cursor-dependent value is not modelled", inst.loc
+        v = conv(c)
+        if v is None:
+            return None, "guard %s is outside the modelled fragment" % fmt(c)[:100], inst.loc if inst else None
+        bit = 0
+        for x in v:
+            bit = B.OR(bit, x)
+        pc = B.AND(pc, bit if taken else B.NOT(bit))
+        used.append((c, taken, inst))
+    gloc = used[-1][2].loc if used and used[-1][2] is not None else None
+    if pc == 0:
+        return None, "path conditions on the cursor are contradictory (infeasible path)", gloc
+    yes, no = B.AND(pc, fits), B.AND(pc, B.NOT(fits))
+
+    def show(f):
+        asg = B.sat_one(f) or {}
+        g = lambda k: sum((1 << i) for i in range(32) if asg.get(3 * i + k))
+        return "position = %d, capacity = %d, size = %d" % (g(0), g(1), g(2) if SZ[0] != "const" else SZ[1])
+    if yes != 0 and no != 0:
+        return "mixed", ("the branch taken here does not decide whether the item fits: the path runs when it fits (%s) and "
+                         "when it does not (%s)%s" % (show(yes), show(no), "" if used else "; no condition on this path involves the position and the capacity")), gloc
+    if no == 0:
+        return "fits", "path conditions imply position + size <= capacity for every position, capacity and size (BDD, %d nodes)" % B.size(), gloc
+    return "nofit", "path conditions imply position + size > capacity for every position, capacity and size (BDD, %d nodes)" % B.size(), gloc
+
+
 def check_transfer(chk, m, fn):
+    rep = discover_rep(m)
     name = fn.name
     mt = NAME_RE.match(name)
     ps = [p for p in paths.enumerate_paths(fn, m) if not paths.is_assert_fail_path(p)]
@@ -182,7 +311,7 @@ def check_transfer(chk, m, fn):
     n_fit = 0
     for p in ps:
         pathid = "%s path %s" % (name, "->".join(b.lstrip("%") for b in p.blocks))
-        adv = [e for e in p.events if e.kind == "store" and fld(e.ptr, fn, m) == "p"]
+        adv = [e for e in p.events if e.kind == "store" and fld(e.ptr, fn, m) == rep.pos]
         deleg = [e for e in p.events if e.kind == "call" and isinstance(e.callee, str)
                  and NAME_RE.match(e.callee) and e.args and e.args[0] == ("arg", 0)]
         if not adv and deleg:
@@ -209,11 +338,37 @@ def check_transfer(chk, m, fn):
             continue
         A = adv[0]
         k_adv = p.events.index(A)
-        root, off, var = ptr_parts(A.val)
-        ok_form = root[0] == "ld" and fld(root[1], fn, m) == "p"
-        if not ok_form:
-            chk.ob("P1.advance-form", pathid, False, "new cursor %s is not old cursor + size" % fmt(A.val)[:80], A.inst.loc, name)
-            continue
+        if rep.kind == "idx":
+            av = strip_casts(A.val)
+            root = off = var = None
+            if av[0] == "b" and av[1] == "add":
+                for x, y in ((av[3], av[4]), (av[4], av[3])):
+                    xs = strip_casts(x)
+                    if xs[0] == "ld" and fld(xs[1], fn, m) == rep.pos:
+                        root = xs
+                        ys = strip_casts(y)
+                        off, var = (ys[2], ()) if ys[0] == "c" else (0, ((y, 1),))
+            if root is None:
+                chk.ob("P1.advance-form", pathid, False, "new position %s is not old position + size" % fmt(A.val)[:80], A.inst.loc, name)
+                continue
+            base_ld = [e.val for e in p.events if e.kind == "load" and fld(e.ptr, fn, m) == rep.base]
+
+            def item(ptr, root=root, base_ld=base_ld):
+                """(offset, variable part) of a pointer into the item (base + old position + offset), else None"""
+                r, o, v = ptr_parts(ptr)
+                if r in base_ld and v and strip_casts(v[0][0]) == root and v[0][1] == 1:
+                    return o, tuple(v[1:])
+                return None
+        else:
+            root, off, var = ptr_parts(A.val)
+            ok_form = root[0] == "ld" and fld(root[1], fn, m) == rep.pos
+            if not ok_form:
+                chk.ob("P1.advance-form", pathid, False, "new cursor %s is not old cursor + size" % fmt(A.val)[:80], A.inst.loc, name)
+                continue
+
+            def item(ptr, root=root):
+                r, o, v = ptr_parts(ptr)
+                return (o, v) if r == root else None
         P0 = root
         if var:
             SZ = ("var", var)
@@ -226,15 +381,18 @@ def check_transfer(chk, m, fn):
         chk.ob("P1.single-advance", pathid, sz_ok, "cursor advanced once by %s" % sz_desc, A.inst.loc, name)
         # accesses through the old cursor
         acc = [(k, e) for k, e in enumerate(p.events) if e.kind in ("load", "store", "memcpy", "memset")
-               and e.ptr is not None and ptr_parts(e.ptr)[0] == P0]
-        src_acc = [(k, e) for k, e in enumerate(p.events) if e.kind == "memcpy" and ptr_parts(e.val)[0] == P0]
+               and e.ptr is not None and item(e.ptr) is not None]
+        src_acc = [(k, e) for k, e in enumerate(p.events) if e.kind == "memcpy" and item(e.val) is not None]
         early = [e for k, e in acc + src_acc if k < k_adv]
         chk.ob("P1.advance-before-access", pathid, not early,
                "the advance precedes every payload access" + ("" if not early else " (access at %s precedes it)" % early[0].inst.loc),
                A.inst.loc, name)
         # the guard, decided semantically: under this path's branch conditions the item either always fits
         # (size <= endp - old cursor) or never does
-        verdict, why, gloc = guard_semantics(p, P0, A, k_adv, SZ, fn, m)
+        if rep.kind == "idx":
+            verdict, why, gloc = guard_semantics_idx(p, P0, A, k_adv, SZ, fn, m, rep)
+        else:
+            verdict, why, gloc = guard_semantics(p, P0, A, k_adv, SZ, fn, m)
         if verdict is None:
             chk.unknown("P2.guard", pathid, why, gloc or A.inst.loc)
             continue
@@ -265,21 +423,21 @@ def check_transfer(chk, m, fn):
                    ginst.loc, name)
         else:
             for k, e in acc:
-                _, o, v = ptr_parts(e.ptr)
+                o, v = item(e.ptr)
                 if e.kind in ("load", "store"):
                     ok = not v and SZ[0] == "const" and 0 <= o and o + e.size <= SZ[1]
                     chk.ob("P3.in-item", "%s %s@+%d" % (pathid, e.kind, o), ok,
                            "%d-byte %s at cursor%+d lies inside the %s-byte item" % (e.size, e.kind, o, sz_desc), e.inst.loc, name)
                 else:
                     ln = e.extra
-                    same = (SZ[0] == "var" and not v and o == 0 and len(SZ[1]) == 1 and ln == SZ[1][0][0]) or \
+                    same = (SZ[0] == "var" and not v and o == 0 and len(SZ[1]) == 1 and strip_casts(ln) == strip_casts(SZ[1][0][0])) or \
                            (SZ[0] == "const" and ln[0] == "c" and o + ln[2] <= SZ[1] and not v and o >= 0)
                     chk.ob("P3.in-item", "%s %s" % (pathid, e.kind), same,
                            "%s of %s bytes at the cursor; item size %s" % (e.kind, fmt(ln)[:40], sz_desc), e.inst.loc, name)
             for k, e in src_acc:
-                _, o, v = ptr_parts(e.val)
+                o, v = item(e.val)
                 ln = e.extra
-                same = (SZ[0] == "var" and not v and o == 0 and len(SZ[1]) == 1 and ln == SZ[1][0][0]) or \
+                same = (SZ[0] == "var" and not v and o == 0 and len(SZ[1]) == 1 and strip_casts(ln) == strip_casts(SZ[1][0][0])) or \
                        (SZ[0] == "const" and ln[0] == "c" and o + ln[2] <= SZ[1] and not v and o >= 0)
                 chk.ob("P3.in-item", "%s memcpy-from-cursor" % pathid, same,
                        "memcpy of %s bytes from the cursor; item size %s" % (fmt(ln)[:40], sz_desc), e.inst.loc, name)
@@ -302,7 +460,7 @@ def check_transfer(chk, m, fn):
             if direction == "unpack":
                 if not fits and null_cond is True:
                     ok = len(wr_user) == 1 and wr_user[0].kind == "memset" and wr_user[0].val == ("c", 8, 0) and \
-                        SZ[0] == "var" and wr_user[0].extra == SZ[1][0][0]
+                        SZ[0] == "var" and strip_casts(wr_user[0].extra) == strip_casts(SZ[1][0][0])
                     chk.ob("P4.zero-fill", pathid, ok,
                            "overflowing unpack_bytes zero-fills exactly the requested bytes of a non-NULL destination",
                            (wr_user[0].inst if wr_user else ginst).loc, name)
@@ -313,7 +471,7 @@ def check_transfer(chk, m, fn):
                            "the destination is not tested for NULL on this path: an overflowing call must zero-fill a "
                            "non-NULL destination and a NULL destination must be skipped", ginst.loc, name)
                 if fits and null_cond is True:
-                    ok = len(wr_user) == 1 and wr_user[0].kind == "memcpy" and ptr_parts(wr_user[0].val) == (P0, 0, ())
+                    ok = len(wr_user) == 1 and wr_user[0].kind == "memcpy" and item(wr_user[0].val) == (0, ())
                     chk.ob("P4.copy", pathid, ok, "fitting unpack_bytes copies from the old cursor to the destination",
                            (wr_user[0].inst if wr_user else ginst).loc, name)
             else:
@@ -329,11 +487,11 @@ def check_transfer(chk, m, fn):
                     chk.ob("P4.copy", pathid, ok, "fitting pack_bytes copies the source to the old cursor", (wr_buf[0].inst if wr_buf else ginst).loc, name)
         # P5 byte order
         if fits and mt and mt.group(2) not in ("bytes",):
-            check_byte_order(chk, m, fn, p, pathid, mt, P0, SZ)
+            check_byte_order(chk, m, fn, p, pathid, mt, item, SZ)
     return n_fit
 
 
-def check_byte_order(chk, m, fn, p, pathid, mt, P0, SZ):
+def check_byte_order(chk, m, fn, p, pathid, mt, item, SZ):
     name = fn.name
     direction, ty = mt.group(1), mt.group(2)
     if ty == "char":
@@ -349,8 +507,8 @@ def check_byte_order(chk, m, fn, p, pathid, mt, P0, SZ):
     if direction == "pack":
         stores = {}
         for e in p.events:
-            if e.kind == "store" and ptr_parts(e.ptr)[0] == P0:
-                stores[ptr_parts(e.ptr)[1]] = e
+            if e.kind == "store" and item(e.ptr) is not None and not item(e.ptr)[1]:
+                stores[item(e.ptr)[0]] = e
 
         def src_of(x):
             if x == ("arg", 1):
@@ -372,8 +530,8 @@ def check_byte_order(chk, m, fn, p, pathid, mt, P0, SZ):
                    e.inst.loc, name)
     else:
         def src_of(x):
-            if x[0] == "ld" and ptr_parts(x[1])[0] == P0 and x[2] == 1:
-                return ("mem%d" % ptr_parts(x[1])[1], 1)
+            if x[0] == "ld" and x[2] == 1 and item(x[1]) is not None and not item(x[1])[1]:
+                return ("mem%d" % item(x[1])[0], 1)
             return None
         r = p.ret
         if r is None:
@@ -391,7 +549,13 @@ def check_byte_order(chk, m, fn, p, pathid, mt, P0, SZ):
 
 def check_aux(chk, m):
     n = 0
-    if m.has_fn("rf_pack_init"):
+    rep = discover_rep(m)
+    if rep.kind == "idx" and m.has_fn("rf_pack_init"):
+        # discover_rep has established: base := buffer, capacity := sz, position := 0 (each stored exactly so)
+        fn = m.functions["rf_pack_init"]
+        chk.ob("P6.init", "rf_pack_init", True, "%s = buffer, %s = sz, %s = 0" % (rep.base, rep.cap, rep.pos), fn.loc, fn.name)
+        n += 1
+    if rep.kind == "ptr" and m.has_fn("rf_pack_init"):
         fn = m.functions["rf_pack_init"]
         for p in paths.enumerate_paths(fn, m):
             vals = {}
@@ -406,18 +570,57 @@ def check_aux(chk, m):
                    "basep = p = buffer, endp = buffer + sz (got basep=%s p=%s endp=%s)" %
                    (fmt(vals.get("basep")), fmt(vals.get("p")), fmt(ep)), fn.loc, fn.name)
             n += 1
-    for name, hi, lo in (("rf_pack_consumed", "p", "basep"), ("rf_pack_remaining", "endp", "p")):
+    def linear(e, f, depth=0):
+        """e as a linear form {field name: coefficient, 1: constant} modulo 2^32 over the rf_pack_t fields of arg 0 (pointer
+        fields through ptrtoint), following calls of the sibling query functions on the same object; None if it is not one."""
+        e = strip_casts(e)
+        k = e[0]
+        if k == "c":
+            return {1: e[2]} if e[2] else {}
+        if k == "ld":
+            name = fld(e[1], f, m)
+            return {name: 1} if name else None
+        if k == "b" and e[1] in ("add", "sub"):
+            a, b = linear(e[3], f, depth), linear(e[4], f, depth)
+            if a is None or b is None:
+                return None
+            out = dict(a)
+            for kk, v in b.items():
+                out[kk] = out.get(kk, 0) + (v if e[1] == "add" else -v)
+            return {kk: v for kk, v in out.items() if v % (1 << 32)}
+        if k == "call" and isinstance(e[1], str) and e[1] in ("rf_pack_consumed", "rf_pack_remaining") and depth < 2 and m.has_fn(e[1]) \
+                and e[2] and e[2][0] == ("arg", 0):
+            g = m.functions[e[1]]
+            ps = paths.enumerate_paths(g, m)
+            if len(ps) == 1 and ps[0].ret is not None:
+                return linear(ps[0].ret, g, depth + 1)
+        return None
+    M32 = (1 << 32) - 1
+    want_of = {"rf_pack_consumed": ({rep.pos: 1, rep.base: M32} if rep.kind == "ptr" else {rep.pos: 1}),
+               "rf_pack_remaining": {rep.cap: 1, rep.pos: M32}}
+    for name, hi, lo in (("rf_pack_consumed", rep.pos, rep.base if rep.kind == "ptr" else "0"), ("rf_pack_remaining", rep.cap, rep.pos)):
         if not m.has_fn(name):
             continue
         fn = m.functions[name]
         for p in paths.enumerate_paths(fn, m):
-            r = strip_casts(p.ret) if p.ret else None
-            ok = False
-            if r and r[0] == "b" and r[1] == "sub":
-                a, b = strip_casts(r[3]), strip_casts(r[4])
-                ok = a[0] == "ld" and fld(a[1], fn, m) == hi and b[0] == "ld" and fld(b[1], fn, m) == lo
-            chk.ob("P6.counters", name, ok, "%s returns %s - %s (got %s)" % (name, hi, lo, fmt(p.ret)[:80]), fn.loc, name)
+            lf = linear(p.ret, fn) if p.ret else None
+            ok = lf is not None and {kk: v % (1 << 32) for kk, v in lf.items()} == want_of[name]
+            chk.ob("P6.counters", name, ok, "%s returns %s - %s as an identity of linear forms over the cursor's fields (got %s)" %
+                   (name, hi, lo, fmt(p.ret)[:80]), fn.loc, name)
             n += 1
+    # "the overflow is visible as a negative remainder": the type of the queries must be able to be negative
+    src = ("#include <librfn/pack.h>\n"
+           "_Static_assert(((__typeof__(rf_pack_remaining((rf_pack_t *) 0))) -1) < 0, \"rf_pack_remaining must return a signed type\");\n"
+           "_Static_assert(((__typeof__(rf_pack_consumed((rf_pack_t *) 0))) -1) < 0, \"rf_pack_consumed must return a signed type\");\n")
+    rc, err = build.syntax_check("c12_signed_witness.c", src)
+    bad = [l for l in err.splitlines() if "must return a signed type" in l]
+    if rc != 0 and not bad:
+        chk.unknown("P6.signed-counters", "pack.h", "compile-time witness does not compile: %s" % err[-200:])
+    else:
+        chk.ob("P6.signed-counters", "rf_pack_remaining / rf_pack_consumed", not bad,
+               "both queries return a signed type, so a cursor beyond the end shows as a negative remainder (compile-time witness)" if not bad else
+               "%s: with an unsigned result `rf_pack_remaining() < 0` is never true and an overflow reads as about 4e9 bytes left"
+               % "; ".join(b.split("error:")[-1].strip() for b in bad)[:200], "include/librfn/pack.h", "rf_pack_remaining")
     chk.expect("P6", "init/consumed/remaining", n, 3)
 
 
@@ -461,7 +664,7 @@ def run_build(chk, cfg):
             continue
         if not NAME_RE.match(fn.name):
             touches_p = any(e for p in paths.enumerate_paths(fn, m) for e in p.events
-                            if e.kind == "store" and fld(e.ptr, fn, m) == "p")
+                            if e.kind == "store" and fld(e.ptr, fn, m) == discover_rep(m).pos)
             if not touches_p:
                 continue
         n_fn += 1
